@@ -598,7 +598,8 @@ class TaskHandler(PoolThread):
                         debug('could not put task on queue')
                         break
                     except Exception:
-                        job, ind = task[:2]
+                        # task is (TASK, (job, i, fun, args, kwargs))
+                        job, ind = task[1][:2]
                         try:
                             cache[job]._set(ind, (False, ExceptionInfo()))
                         except KeyError:
@@ -610,7 +611,7 @@ class TaskHandler(PoolThread):
                     continue
                 break
             except Exception:
-                job, ind = task[:2] if task else (0, 0)
+                job, ind = task[1][:2] if task else (0, 0)
                 if job in cache:
                     cache[job]._set(ind + 1, (False, ExceptionInfo()))
                 if set_length:
